@@ -84,7 +84,21 @@ class Ctx:
         return self._rd
 
     # -- direct classification of an expression that denotes a vector object
-    def vec_class(self, e):
+    def _is_vectors_dict(self, e, at, fi=False):
+        """e denotes <system>._vectors, directly or through a local alias."""
+        if isinstance(e, ast.Attribute):
+            return e.attr == '_vectors'
+        if isinstance(e, ast.Name):
+            if fi or at is None:
+                vals = self.__dict__.get('_defs_fi', {}).get(e.id, []) if '_defs_fi' in self.__dict__ else None
+                if vals is None:
+                    return False
+                return bool(vals) and all(isinstance(v, ast.Attribute) and v.attr == '_vectors' for v in vals)
+            v = self.rd.value(at, e.id)
+            return isinstance(v, ast.Attribute) and v.attr == '_vectors'
+        return False
+
+    def vec_class(self, e, at=None):
         if isinstance(e, ast.Attribute):
             if e.attr in NL_ATTRS:
                 return 'nl'
@@ -93,8 +107,7 @@ class Ctx:
             return None
         if isinstance(e, ast.Subscript):
             v = e.value
-            if isinstance(v, ast.Subscript) and isinstance(v.value, ast.Attribute) and \
-                    v.value.attr == '_vectors':
+            if isinstance(v, ast.Subscript) and self._is_vectors_dict(v.value, at):
                 k = astx.const_str(e.slice)
                 if k == 'linear':
                     return 'lin'
@@ -138,7 +151,7 @@ class Ctx:
     def origins(self, e, at, depth=0):
         if depth > 10:
             return {('other', 'direct')}
-        c = self.vec_class(e)
+        c = self.vec_class(e, at)
         if c:
             return {(c, 'direct')}
         if isinstance(e, ast.Name):
@@ -212,6 +225,8 @@ class Ctx:
             self._defs_fi = d
         def may(v):
             if v is None or self.vec_class(v):
+                return True
+            if isinstance(v, ast.Attribute) and v.attr == '_vectors':
                 return True
             if isinstance(v, ast.Name):
                 return self._may_be_vector(v.id, _seen)
@@ -938,8 +953,221 @@ def _model_attr(ctx, e, at):
     return None
 
 
+class _Subst(ast.NodeTransformer):
+    def __init__(self, mapping, rename):
+        self.mapping, self.rename = mapping, rename
+
+    def visit_Name(self, n):
+        if n.id in self.mapping:
+            import copy
+            return copy.deepcopy(self.mapping[n.id])
+        if n.id in self.rename:
+            return ast.copy_location(ast.Name(id=self.rename[n.id], ctx=n.ctx), n)
+        return n
+
+
+def _pure_arg(e):
+    return isinstance(e, ast.Constant) or (astx.path(e) is not None and not any(isinstance(x, ast.Call) for x in ast.walk(e)))
+
+
+def _inline_simple_helpers(repo, fn):
+    """Func whose body has calls of *simple* helpers inlined (one level).
+
+    A simple helper is a module-level function of the same module, or a method reached through
+    `self.<m>(...)`, whose body is a docstring plus straight-line Assign/AugAssign/Expr statements and
+    at most one trailing `return <expr>`; it is called as a statement (`h(a, b)`) or as the whole right
+    hand side of an assignment (`x = h(a)`) with side-effect-free arguments (names, attribute paths,
+    constants).  Parameters are substituted by the arguments, helper locals are renamed apart.
+    Returns the original Func when nothing was inlined.
+    """
+    import copy
+    from ..core import Func
+    cache = repo.__dict__.setdefault('_c31_inl', {})
+    if id(fn.node) in cache:
+        return cache[id(fn.node)]
+    counter = [0]
+
+    def helper_of(call):
+        f = call.func
+        h, skip = None, 0
+        if isinstance(f, ast.Name):
+            h = fn.module.funcs.get(f.id)
+        elif isinstance(f, ast.Attribute) and astx.path(f.value) == 'self' and fn.cls is not None:
+            h = repo.lookup(fn.rel, fn.cls.name, f.attr)
+            skip = 1
+        if h is None or h.node is fn.node or h.node.decorator_list:
+            return None
+        a = h.node.args
+        if a.vararg or a.kwarg or a.kwonlyargs or a.posonlyargs or any(isinstance(x, ast.Starred) for x in call.args) \
+                or any(k.arg is None for k in call.keywords):
+            return None
+        params = [x.arg for x in a.args][skip:]
+        body = astx.strip_doc(h.node.body)
+        ret = None
+        if body and isinstance(body[-1], ast.Return):
+            ret, body = body[-1].value, body[:-1]
+        if not all(isinstance(st, (ast.Assign, ast.AugAssign, ast.Expr, ast.Pass)) for st in body):
+            return None
+        if any(isinstance(x, (ast.Yield, ast.YieldFrom, ast.Await, ast.Lambda, ast.NamedExpr))
+               for st in h.node.body for x in ast.walk(st)):
+            return None
+        actual = {}
+        for i, x in enumerate(call.args):
+            if i >= len(params):
+                return None
+            actual[params[i]] = x
+        for k in call.keywords:
+            if k.arg not in params or k.arg in actual:
+                return None
+            actual[k.arg] = k.value
+        defaults = dict(zip(params[len(params) - len(a.defaults):], a.defaults)) if a.defaults else {}
+        for p_ in params:
+            if p_ not in actual:
+                if p_ in defaults:
+                    actual[p_] = defaults[p_]
+                else:
+                    return None
+        if not all(_pure_arg(x) for x in actual.values()):
+            return None
+        # a parameter that is re-assigned inside the helper cannot be substituted
+        assigned = {x.id for st in body for t in (astx.assigned_targets(st) if isinstance(st, (ast.Assign, ast.AugAssign)) else [])
+                    for x in ast.walk(t) if isinstance(x, ast.Name) and isinstance(x.ctx, ast.Store)}
+        if assigned & set(params):
+            return None
+        if skip:
+            actual['self'] = ast.Name(id='self', ctx=ast.Load())
+        counter[0] += 1
+        rename = {nm: f'_inl{counter[0]}_{nm}' for nm in assigned}
+        sub = _Subst(actual, rename)
+        new_body = [sub.visit(copy.deepcopy(st)) for st in body]
+        new_ret = sub.visit(copy.deepcopy(ret)) if ret is not None else None
+        return new_body, new_ret
+
+    changed = [False]
+
+    def do_block(stmts):
+        out_ = []
+        for st in stmts:
+            call = None
+            if isinstance(st, ast.Expr) and isinstance(st.value, ast.Call):
+                call = st.value
+            elif isinstance(st, ast.Assign) and isinstance(st.value, ast.Call):
+                call = st.value
+            r = helper_of(call) if call is not None else None
+            if r is not None:
+                body, ret = r
+                if isinstance(st, ast.Assign):
+                    if ret is None:
+                        r = None
+                    else:
+                        tail = ast.Assign(targets=st.targets, value=ret)
+                        body = body + [ast.copy_location(tail, st)]
+                elif ret is not None:
+                    body = body + [ast.copy_location(ast.Expr(value=ret), st)]
+            if r is not None:
+                changed[0] = True
+                for b in body:
+                    ast.fix_missing_locations(ast.copy_location(b, b if hasattr(b, 'lineno') else st))
+                out_.extend(body)
+                continue
+            for fld in ('body', 'orelse', 'finalbody'):
+                sub_ = getattr(st, fld, None)
+                if isinstance(sub_, list) and sub_ and isinstance(sub_[0], ast.stmt) and \
+                        not isinstance(st, (ast.FunctionDef, ast.AsyncFunctionDef, ast.ClassDef)):
+                    setattr(st, fld, do_block(sub_))
+            if isinstance(st, ast.Try):
+                for h_ in st.handlers:
+                    h_.body = do_block(h_.body)
+            out_.append(st)
+        return out_
+
+    node = copy.deepcopy(fn.node) if False else None
+    # cheap pre-check: is there any candidate call at all?
+    cand = False
+    for st in astx.walk_stmts(fn.node.body):
+        c = st.value if isinstance(st, (ast.Expr, ast.Assign)) and isinstance(getattr(st, 'value', None), ast.Call) else None
+        if c is not None and helper_of(c) is not None:
+            cand = True
+            break
+    if not cand:
+        cache[id(fn.node)] = fn
+        return fn
+    counter[0] = 0
+    # deep copy without the parent links
+    src_node = fn.node
+    saved_parent = getattr(src_node, '_parent', None)
+    clone = ast.parse(ast.unparse(src_node)).body[0]
+    # keep original line numbers where possible: unparse loses them, so map by statement order
+    orig = list(astx.walk_stmts(src_node.body))
+    new = list(astx.walk_stmts(clone.body))
+    if len(orig) == len(new):
+        for o, n_ in zip(orig, new):
+            for x in ast.walk(n_):
+                if hasattr(x, 'lineno'):
+                    x.lineno = getattr(o, 'lineno', x.lineno)
+                    x.end_lineno = getattr(o, 'end_lineno', x.lineno)
+    helper_fn = fn
+    # helpers are looked up on the ORIGINAL module; inline into the clone
+    clone.body = do_block(clone.body)
+    for par in ast.walk(clone):
+        for ch in ast.iter_child_nodes(par):
+            ch._parent = par
+    clone._parent = saved_parent
+    res = Func(fn.module, fn.qualname, clone, fn.cls)
+    cache[id(fn.node)] = res
+    return res
+
+
+def _snap_key(ctx, v, at, saves, depth=0):
+    """Key (local name, tuple index or None) of the pre-FD snapshot that expression v denotes at node `at`.
+
+    Follows renamings (`b = a`), tuple packing (`t = (x, y)`), unpacking (`p, q = t`) and constant
+    indexing (`t[1]`).  Returns None if v is not (uniquely) such a snapshot.
+    """
+    if depth > 6:
+        return None
+    if isinstance(v, ast.Subscript) and isinstance(v.value, ast.Name) and isinstance(v.slice, ast.Constant) \
+            and isinstance(v.slice.value, int):
+        base = _snap_key(ctx, v.value, at, saves, depth + 1)
+        if base is not None and base[1] is None and (base[0], v.slice.value) in saves:
+            return (base[0], v.slice.value)
+        return None
+    if not isinstance(v, ast.Name):
+        return None
+    ds = ctx.rd.defs(at, v.id)
+    if len(ds) != 1:
+        return None
+    d = next(iter(ds))
+    if d.kind != 'stmt' or not isinstance(d.ast, ast.Assign) or len(d.ast.targets) != 1:
+        return None
+    t, val = d.ast.targets[0], d.ast.value
+    if isinstance(t, ast.Name):
+        k = (v.id, None)
+        if k in saves and saves[k][0] is d:
+            return k
+        if any(kk[0] == v.id and saves[kk][0] is d for kk in saves):
+            return (v.id, None)         # the packed tuple itself
+        if isinstance(val, (ast.Name, ast.Subscript)):
+            return _snap_key(ctx, val, d, saves, depth + 1)
+        return None
+    if isinstance(t, (ast.Tuple, ast.List)):
+        idx = next((i for i, e in enumerate(t.elts) if isinstance(e, ast.Name) and e.id == v.id), None)
+        if idx is None:
+            return None
+        if isinstance(val, (ast.Tuple, ast.List)) and len(val.elts) == len(t.elts):
+            k = (v.id, None)
+            if k in saves and saves[k][0] is d:
+                return k
+            return _snap_key(ctx, val.elts[idx], d, saves, depth + 1)
+        if isinstance(val, ast.Name):
+            base = _snap_key(ctx, val, d, saves, depth + 1)
+            if base is not None and base[1] is None and (base[0], idx) in saves:
+                return (base[0], idx)
+    return None
+
+
 def _check_totals_facts(repo):
-    fn = repo.func(PROB, 'Problem.check_totals')
+    fn = _inline_simple_helpers(repo, repo.func(PROB, 'Problem.check_totals'))
     ctx = Ctx(repo, fn)
     g = ctx.g
     fd = g.calling('approx_totals')
@@ -953,27 +1181,46 @@ def _check_totals_facts(repo):
     body = set(g.body_nodes(loop))
     after = g.reach([m for m, lab in g.succ[hdr] if lab == 'false'], labels=cfgm.noexc)
     saves, restores, effects = {}, [], list(fd)
+    def snap(v, n):
+        src, copied = v, False
+        if isinstance(v, ast.Call) and astx.callee_attr(v) in COPYING:
+            if astx.receiver(v) is not None and not v.args:
+                src, copied = astx.receiver(v), True
+            elif len(v.args) == 1:
+                src, copied = v.args[0], True
+        a = _model_attr(ctx, src, n)
+        return (a, copied) if a else None
     for n in g.nodes:
         if n.kind != 'stmt' or not isinstance(n.ast, ast.Assign) or len(n.ast.targets) != 1:
             continue
         t, v = n.ast.targets[0], n.ast.value
+        pairs = []      # (key, value expr)
         if isinstance(t, ast.Name):
-            src, copied = v, False
-            if isinstance(v, ast.Call) and astx.callee_attr(v) in COPYING:
-                if astx.receiver(v) is not None and not v.args:
-                    src, copied = astx.receiver(v), True
-                elif len(v.args) == 1:
-                    src, copied = v.args[0], True
-            a = _model_attr(ctx, src, n)
-            if a and n not in after:
-                saves[t.id] = (n, a, copied)
-        else:
-            a = _model_attr(ctx, t, n)
+            if isinstance(v, (ast.Tuple, ast.List)):
+                pairs = [((t.id, i), e) for i, e in enumerate(v.elts)]
+            else:
+                pairs = [((t.id, None), v)]
+        elif isinstance(t, (ast.Tuple, ast.List)) and isinstance(v, (ast.Tuple, ast.List)) and \
+                len(t.elts) == len(v.elts) and all(isinstance(e, ast.Name) for e in t.elts):
+            pairs = [((te.id, None), ve) for te, ve in zip(t.elts, v.elts)]
+        if pairs:
+            for key, e in pairs:
+                sp = snap(e, n)
+                if sp and n not in after:
+                    saves[key] = (n, sp[0], sp[1])
+            continue
+        tl = t.elts if isinstance(t, (ast.Tuple, ast.List)) else [t]
+        vl = v.elts if isinstance(t, (ast.Tuple, ast.List)) and isinstance(v, (ast.Tuple, ast.List)) and \
+            len(v.elts) == len(tl) else None
+        for i, te in enumerate(tl):
+            a = _model_attr(ctx, te, n)
             if a:
                 if n in body:
                     effects.append(n)
                 elif n in after:
-                    restores.append((n, a))
+                    val = vl[i] if vl is not None else (v if len(tl) == 1 else
+                                                         ast.Subscript(value=v, slice=ast.Constant(value=i), ctx=ast.Load()))
+                    restores.append((n, a, val))
     return fn, ctx, loop, hdr, saves, restores, effects
 
 
@@ -982,10 +1229,10 @@ def check_totals(repo, out):
     """Problem.check_totals: the model attributes snapshotted before the FD pass are exactly those put back after it, each from its own snapshot (copied where the FD pass mutates in place), and everything approx_totals overwrites is among them."""
     fn, ctx, loop, hdr, saves, restores, effects = _check_totals_facts(repo)
     g = ctx.g
-    saved_attrs = {a: (n, nm, cp) for nm, (n, a, cp) in saves.items()}
+    saved_attrs = {a: (n, key, cp) for key, (n, a, cp) in saves.items()}
     restored_attrs = {}
-    for n, a in restores:
-        restored_attrs.setdefault(a, []).append(n)
+    for n, a, val in restores:
+        restored_attrs.setdefault(a, []).append((n, val))
     # attributes mutated in place by the approximation set-up need a copied snapshot
     inplace, rebound = set(), set()
     f2 = repo.func(GROUP, 'Group._setup_approx_derivs')
@@ -1012,9 +1259,9 @@ def check_totals(repo, out):
         if a not in restored_attrs:
             out.bad(fn, loop, f'the FD pass overwrites model.{a} (directly or in Group.approx_totals) and '
                     'check_totals never puts it back', key=f'unrestored:{a}')
-    for a, (sn, nm, cp) in sorted(saved_attrs.items()):
+    for a, (sn, skey, cp) in sorted(saved_attrs.items()):
         if a not in restored_attrs:
-            used = any(isinstance(x, ast.Name) and x.id == nm and x is not sn.ast.targets[0]
+            used = any(isinstance(x, ast.Name) and x.id == skey[0] and isinstance(x.ctx, ast.Load)
                        for x in astx.walk(fn.node))
             # a snapshot that is only read (e.g. `approx` passed on) is not a restore obligation
             if a in written or not used:
@@ -1030,21 +1277,15 @@ def check_totals(repo, out):
             out.bad(fn, sn.ast, f'model.{a} is mutated in place by Group._setup_approx_derivs, so its snapshot '
                     'must be a copy; a reference snapshot restores the modified dict', key=f'snapshot-copy:{a}')
             continue
+    def guard_is_snapshot_of(e, par, a):
+        """Name e tested by the If `par` is the snapshot of model.<a>."""
+        pn = g.nodes_of(par)
+        return isinstance(e, ast.Name) and a in saved_attrs and bool(pn) and \
+            _snap_key(ctx, e, pn[0], saves) == saved_attrs[a][1]
+
     for a, nodes in sorted(restored_attrs.items()):
-        for n in nodes:
-            v = n.ast.value
-            if isinstance(v, ast.Name):
-                ds = ctx.rd.defs(n, v.id)
-                sv = saves.get(v.id)
-                if sv is None or ds != {sv[0]}:
-                    out.unsure(fn, n.ast, f'`{v.id}` is not a unique pre-FD snapshot')
-                elif sv[1] != a:
-                    out.bad(fn, n.ast, f'model.{a} is restored from the snapshot of model.{sv[1]}',
-                            key=f'cross-restore:{a}')
-                elif a in saved_attrs and not (a in inplace and not sv[2]) and \
-                        not [e for e in effects if g.path([e], [sv[0]]) is not None]:
-                    out.ok(fn, n.ast, f'model.{a} restored from its own pre-FD snapshot')
-            elif isinstance(v, ast.Constant):
+        for n, v in nodes:
+            if isinstance(v, ast.Constant):
                 # accepted only under a guard that makes the constant equal to the snapshot
                 sn = saved_attrs.get(a)
                 par = n.ast._parent
@@ -1052,13 +1293,16 @@ def check_totals(repo, out):
                 if sn is not None and isinstance(par, ast.If) and n.ast in par.body:
                     t = par.test
                     if isinstance(t, ast.UnaryOp) and isinstance(t.op, ast.Not) and \
-                            isinstance(t.operand, ast.Name) and t.operand.id == sn[1] and v.value is False:
+                            guard_is_snapshot_of(t.operand, par, a) and v.value is False:
                         okc = True
-                    if isinstance(t, ast.Name) and t.id == sn[1] and v.value is True:
+                    if guard_is_snapshot_of(t, par, a) and v.value is True:
                         okc = True
                 elif sn is not None and isinstance(par, ast.If) and n.ast in par.orelse:
                     t = par.test
-                    if isinstance(t, ast.Name) and t.id == sn[1] and v.value is False:
+                    if guard_is_snapshot_of(t, par, a) and v.value is False:
+                        okc = True
+                    if isinstance(t, ast.UnaryOp) and isinstance(t.op, ast.Not) and \
+                            guard_is_snapshot_of(t.operand, par, a) and v.value is True:
                         okc = True
                 if okc:
                     out.ok(fn, n.ast, f'model.{a} reset to {v.value!r} under a guard that implies the snapshot '
@@ -1067,11 +1311,22 @@ def check_totals(repo, out):
                     out.bad(fn, n.ast, f'model.{a} is overwritten with a constant without a snapshot', key=f'no-snapshot:{a}')
                 else:
                     out.bad(fn, n.ast, f'model.{a} is reset to the constant {v.value!r} although its pre-FD value '
-                            f'(`{sn[1]}`) may differ on this path', key=f'const-restore:{a}')
+                            f'(`{sn[1][0]}`) may differ on this path', key=f'const-restore:{a}')
+            elif isinstance(v, (ast.Name, ast.Subscript)):
+                key = _snap_key(ctx, v, n, saves)
+                sv = saves.get(key) if key is not None else None
+                if sv is None:
+                    out.unsure(fn, n.ast, f'`{astx.src(v)}` is not a unique pre-FD snapshot')
+                elif sv[1] != a:
+                    out.bad(fn, n.ast, f'model.{a} is restored from the snapshot of model.{sv[1]}',
+                            key=f'cross-restore:{a}')
+                elif a in saved_attrs and not (a in inplace and not sv[2]) and \
+                        not [e for e in effects if g.path([e], [sv[0]]) is not None]:
+                    out.ok(fn, n.ast, f'model.{a} restored from its own pre-FD snapshot')
             else:
                 out.unsure(fn, n.ast, f'restore value of model.{a} not recognised')
         if a not in saved_attrs:
-            out.bad(fn, nodes[0].ast, f'model.{a} is "restored" but was never snapshotted before the FD pass',
+            out.bad(fn, nodes[0][0].ast, f'model.{a} is "restored" but was never snapshotted before the FD pass',
                     key=f'no-snapshot:{a}')
     out.count('saved', len(saved_attrs))
     out.count('restored', len(restored_attrs))
@@ -1085,7 +1340,7 @@ def check_totals_guard(repo, out):
     if not restores:
         out.bad(fn, loop, 'FD pass is never undone', key='restore-skipped')
         return
-    rnodes = [n for n, _ in restores]
+    rnodes = [n for n, *_ in restores]
     start = [m for m, lab in g.succ[hdr] if lab == 'false']
     # tests that decide whether the FD effects happen at all
     def guards(n):
@@ -1137,7 +1392,8 @@ def check_totals_guard(repo, out):
         while isinstance(t, ast.UnaryOp) and isinstance(t.op, ast.Not):
             t, neg = t.operand, not neg
         skip_when = ('not ' if neg else '') + astx.src(t)
-        if isinstance(t, ast.Name) and t.id in saves and saves[t.id][1] == '_owns_approx_jac' and not neg:
+        tk = _snap_key(ctx, t, culprit, saves) if isinstance(t, ast.Name) else None
+        if tk is not None and tk in saves and saves[tk][1] == '_owns_approx_jac' and not neg:
             skip_when = 'approx'
     if culprit is not None and effects and all(
             any(a is not None and astx.same(a.test, culprit.ast.test) for a, _ in guards(e)) for e in effects):
@@ -1482,7 +1738,26 @@ def jvp_return(repo, out):
         raise AnalysisError(f'{fn.ident}: no return value')
     for n in rets:
         v = n.ast.value
-        if isinstance(v, ast.DictComp):
+        at_of = {}
+        if isinstance(v, ast.Name):
+            # dict built up statement by statement: `res = {}` ... `res[k] = value` ... `return res`
+            d0 = ctx.rd.value(n, v.id)
+            stores = [(m, m.ast.value) for m in g.nodes if m.kind == 'stmt' and isinstance(m.ast, ast.Assign)
+                      and any(isinstance(t, ast.Subscript) and isinstance(t.value, ast.Name) and t.value.id == v.id
+                              for t in m.ast.targets)]
+            if isinstance(d0, ast.Dict) or (isinstance(d0, ast.Call) and astx.call_name(d0) == 'dict' and
+                                            not d0.args and not d0.keywords):
+                vals = (list(d0.values) if isinstance(d0, ast.Dict) else []) + [e for _, e in stores]
+                at_of = {id(e): m for m, e in stores}
+                if not vals:
+                    out.unsure(fn, n.ast, 'returned dict is never filled')
+                    continue
+            elif isinstance(d0, ast.DictComp):
+                vals = [d0.value]
+            else:
+                out.unsure(fn, n.ast, 'returned name is not a dict built in this function')
+                continue
+        elif isinstance(v, ast.DictComp):
             vals = [v.value]
         elif isinstance(v, ast.Dict):
             vals = list(v.values)
@@ -1490,7 +1765,7 @@ def jvp_return(repo, out):
             out.unsure(fn, n.ast, 'return value is not a dict display/comprehension')
             continue
         for e in vals:
-            o = ctx.origins(e, n)
+            o = ctx.origins(e, at_of.get(id(e), n))
             kinds = {k for k, _ in o}
             if kinds & set(VEC):
                 out.bad(fn, n.ast, f'returned value `{astx.src(e)}` is a live view of a model vector: the result of '
@@ -1700,7 +1975,41 @@ SCALE_INV = {'scale_to_norm': 'scale_to_phys', 'scale_to_phys': 'scale_to_norm'}
 SCALE_CTX_FUNCS = [(SYS, 'System._scaled_context_all'), (SYS, 'System._unscaled_context')]
 
 
-def _scale_sites(g, region):
+def _generator_parts(repo, fn, it):
+    """If `it` is `self.<m>()` and <m> is a generator that only chains iterables (`yield from E`, or
+    `for v in E: yield v`) under plain `if` guards, return [(dump(E), guard dumps)], else None."""
+    if not (isinstance(it, ast.Call) and not it.args and not it.keywords and astx.path(astx.receiver(it)) == 'self'
+            and fn.cls is not None):
+        return None
+    h = repo.lookup(fn.rel, fn.cls.name, astx.callee_attr(it))
+    if h is None:
+        return None
+    parts = []
+
+    def run(body, guards):
+        for st in body:
+            if isinstance(st, ast.If):
+                t = astx.dump(st.test)
+                if not run(st.body, guards + [t + '+']) or not run(st.orelse, guards + [t + '-']):
+                    return False
+            elif isinstance(st, ast.Expr) and isinstance(st.value, ast.YieldFrom):
+                parts.append(('each:' + astx.dump(st.value.value), tuple(guards)))
+            elif isinstance(st, ast.For) and isinstance(st.target, ast.Name) and len(st.body) == 1 and \
+                    isinstance(st.body[0], ast.Expr) and isinstance(st.body[0].value, ast.Yield) and \
+                    isinstance(st.body[0].value.value, ast.Name) and st.body[0].value.value.id == st.target.id \
+                    and not st.orelse:
+                parts.append(('each:' + astx.dump(st.iter), tuple(guards)))
+            elif isinstance(st, ast.Pass):
+                continue
+            else:
+                return False
+        return True
+    if not run(astx.strip_doc(h.node.body), []) or not parts:
+        return None
+    return parts
+
+
+def _scale_sites(g, region, repo=None, fn=None):
     """Scaling operations in a CFG region: [(op, what-is-scaled dump, guards, args dump, anchor ast)]."""
     res, seen = [], set()
     for n in region:
@@ -1729,15 +2038,194 @@ def _scale_sites(g, region):
                 elif isinstance(a, (ast.For, ast.While)):
                     anchor = a
             args = astx.dump(ast.Tuple(elts=list(c.args) + [k.value for k in c.keywords], ctx=ast.Load()))
-            res.append((op, what, tuple(sorted(guards)), args, anchor, c))
+            parts = None
+            if repo is not None and isinstance(st, ast.For) and what.startswith('each:'):
+                parts = _generator_parts(repo, fn, st.iter)
+            if parts:
+                # loop over a private chaining generator: one site per chained iterable, with its guard
+                for w2, g2 in parts:
+                    res.append((op, w2, tuple(sorted(guards + list(g2))), args, anchor, c))
+            else:
+                res.append((op, what, tuple(sorted(guards)), args, anchor, c))
     return res
+
+
+class _FoldConst(ast.NodeTransformer):
+    """Substitute parameter names by constants and fold `if <const>` / `if not <const>` / conditional expressions."""
+
+    def __init__(self, consts, rename):
+        self.consts, self.rename = consts, rename
+
+    def visit_Name(self, n):
+        if n.id in self.consts and isinstance(n.ctx, ast.Load):
+            return ast.copy_location(ast.Constant(value=self.consts[n.id]), n)
+        if n.id in self.rename:
+            return ast.copy_location(ast.Name(id=self.rename[n.id], ctx=n.ctx), n)
+        return n
+
+    @staticmethod
+    def _truth(t):
+        if isinstance(t, ast.Constant):
+            return bool(t.value)
+        if isinstance(t, ast.UnaryOp) and isinstance(t.op, ast.Not):
+            v = _FoldConst._truth(t.operand)
+            return None if v is None else not v
+        if isinstance(t, ast.Compare) and len(t.ops) == 1 and isinstance(t.left, ast.Constant) and \
+                isinstance(t.comparators[0], ast.Constant) and isinstance(t.ops[0], (ast.Is, ast.IsNot, ast.Eq, ast.NotEq)):
+            eq = t.left.value == t.comparators[0].value and type(t.left.value) is type(t.comparators[0].value)
+            return eq if isinstance(t.ops[0], (ast.Is, ast.Eq)) else not eq
+        return None
+
+    def visit_If(self, n):
+        self.generic_visit(n)
+        v = self._truth(n.test)
+        if v is None:
+            return n
+        keep = n.body if v else n.orelse
+        return keep or [ast.copy_location(ast.Pass(), n)]
+
+    def visit_IfExp(self, n):
+        self.generic_visit(n)
+        v = self._truth(n.test)
+        return n if v is None else (n.body if v else n.orelse)
+
+
+def _inline_const_helpers(repo, fn, thorough_checks=True):
+    """(Func, problem): fn with statement calls `self.<helper>(<constants>)` replaced by the helper body
+    specialised to those constants.  problem is a message when such a call exists but the helper may not be
+    inlined soundly (overridden in a subclass, or used outside @contextmanager functions)."""
+    import copy
+    from ..core import Func
+    if fn.cls is None:
+        return fn, None
+
+    def const_call(st):
+        if isinstance(st, ast.Expr) and isinstance(st.value, ast.Call):
+            c = st.value
+            if astx.path(astx.receiver(c)) == 'self' and (c.args or c.keywords) and \
+                    all(isinstance(a, ast.Constant) for a in c.args) and \
+                    all(k.arg is not None and isinstance(k.value, ast.Constant) for k in c.keywords):
+                return c
+        return None
+    cands = [const_call(st) for st in astx.walk_stmts(fn.node.body)]
+    cands = [c for c in cands if c is not None]
+    if not cands:
+        return fn, None
+    helpers = {}
+    for c in cands:
+        h = repo.lookup(fn.rel, fn.cls.name, astx.callee_attr(c))
+        if h is None or h.node is fn.node or h.node.decorator_list:
+            continue
+        a = h.node.args
+        if a.vararg or a.kwarg or a.kwonlyargs or a.posonlyargs:
+            continue
+        if any(isinstance(x, (ast.Return, ast.Yield, ast.YieldFrom, ast.Await)) and
+               (not isinstance(x, ast.Return) or x.value is not None) for x in astx.walk(h.node)):
+            continue
+        if not any(astx.callee_attr(x) in SCALE_INV for x in astx.calls(h.node)):
+            continue
+        helpers[astx.callee_attr(c)] = h
+    if not helpers:
+        return fn, None
+    # soundness side conditions
+    for nm, h in helpers.items():
+        if repo.overriders(h.rel, h.cls.name, nm):
+            return fn, f'helper {nm} is overridden in a subclass: the inlined body is not what runs'
+        for rel in repo.shipped():
+            if nm not in repo.source(rel):
+                continue
+            for f in repo.module(rel).funcs.values():
+                if f.node is h.node:
+                    continue
+                for x in astx.calls(f.node):
+                    if astx.callee_attr(x) == nm and 'contextmanager' not in f.decorators():
+                        return fn, f'helper {nm} is also called from {f.ident} (not a context manager)'
+    clone = ast.parse(ast.unparse(fn.node)).body[0]
+    orig, new = list(astx.walk_stmts(fn.node.body)), list(astx.walk_stmts(clone.body))
+    if len(orig) == len(new):
+        for o, n_ in zip(orig, new):
+            for x in ast.walk(n_):
+                if hasattr(x, 'lineno'):
+                    x.lineno = getattr(o, 'lineno', x.lineno)
+                    x.end_lineno = getattr(o, 'end_lineno', x.lineno)
+    counter = [0]
+
+    def expand(st):
+        c = const_call(st)
+        h = helpers.get(astx.callee_attr(c)) if c is not None else None
+        if h is None:
+            return None
+        params = [x.arg for x in h.node.args.args][1:]
+        consts = {}
+        for i, a_ in enumerate(c.args):
+            if i >= len(params):
+                return None
+            consts[params[i]] = a_.value
+        for k in c.keywords:
+            if k.arg not in params or k.arg in consts:
+                return None
+            consts[k.arg] = k.value.value
+        d = h.node.args.defaults
+        for p_, dv in zip(params[len(params) - len(d):], d):
+            if p_ not in consts:
+                if not isinstance(dv, ast.Constant):
+                    return None
+                consts[p_] = dv.value
+        if set(params) - set(consts):
+            return None
+        body = astx.strip_doc(h.node.body)
+        stored = {x.id for b in body for x in ast.walk(b) if isinstance(x, ast.Name) and isinstance(x.ctx, ast.Store)}
+        if stored & set(params):
+            return None
+        counter[0] += 1
+        rename = {nm: f'_inl{counter[0]}_{nm}' for nm in stored}
+        res = []
+        for b in body:
+            r = _FoldConst(consts, rename).visit(ast.parse(ast.unparse(b)).body[0])
+            rs = r if isinstance(r, list) else [r]
+            for x in rs:
+                for y in ast.walk(x):
+                    if hasattr(y, 'lineno'):
+                        y.lineno = y.end_lineno = getattr(b, 'lineno', 0)
+                ast.fix_missing_locations(x)
+            res.extend(rs)
+        return res or [ast.Pass()]
+
+    def do_block(stmts):
+        out_ = []
+        for st in stmts:
+            r = expand(st)
+            if r is not None:
+                out_.extend(r)
+                continue
+            for fld in ('body', 'orelse', 'finalbody'):
+                sub_ = getattr(st, fld, None)
+                if isinstance(sub_, list) and sub_ and isinstance(sub_[0], ast.stmt) and \
+                        not isinstance(st, (ast.FunctionDef, ast.AsyncFunctionDef, ast.ClassDef)):
+                    setattr(st, fld, do_block(sub_))
+            if isinstance(st, ast.Try):
+                for h_ in st.handlers:
+                    h_.body = do_block(h_.body)
+            out_.append(st)
+        return out_
+    clone.body = do_block(clone.body)
+    ast.fix_missing_locations(clone)
+    for par in ast.walk(clone):
+        for ch in ast.iter_child_nodes(par):
+            ch._parent = par
+    clone._parent = getattr(fn.node, '_parent', None)
+    return Func(fn.module, fn.qualname, clone, fn.cls), None
 
 
 @rule('C31.scale_ctx', floor=4)
 def scale_ctx(repo, out):
     """The scaling context managers used by every derivative query undo each scale operation (same vectors, same guard, inverse operation) on the normal AND the exceptional exit of the with-body: a query that raises leaves the vectors as it found them."""
     for rel, qn in SCALE_CTX_FUNCS:
-        fn = repo.func(rel, qn)
+        fn0 = repo.func(rel, qn)
+        fn, problem = _inline_const_helpers(repo, fn0)
+        if problem:
+            out.unsure(fn0, fn0.node, problem)
+            continue
         ctx = Ctx(repo, fn)
         g = ctx.g
         ys = [n for n in g.nodes if n.kind == 'stmt' and isinstance(n.ast, ast.Expr) and
@@ -1748,7 +2236,7 @@ def scale_ctx(repo, out):
         succs = [m for m, _ in g.succ[y]]
         after = g.reach(succs)
         before = {n for n in g.nodes if n not in after and n is not y and g.path([n], [y]) is not None}
-        pre, post = _scale_sites(g, before), _scale_sites(g, after)
+        pre, post = _scale_sites(g, before, repo, fn), _scale_sites(g, after, repo, fn)
         if not pre:
             raise AnalysisError(f'{fn.ident}: no scaling operation before the yield')
         used = set()
@@ -1952,6 +2440,33 @@ _RESTORE_CT = ("        model._jacobian = old_jac\n        model._owns_approx_ja
                "        model._approx_schemes = old_schemes\n")
 _RESTORE_CT_PREFIX = ("        if not approx:\n" + _RESTORE_CT.replace('        model', '            model')
                       .replace('model._owns_approx_jac = approx\n', 'model._owns_approx_jac = False\n'))
+_CT_SAVES = ("        approx = model._owns_approx_jac\n        approx_of = model._owns_approx_of\n"
+             "        approx_wrt = model._owns_approx_wrt\n        approx_jac_meta = model._owns_approx_jac_meta\n"
+             "        old_jac = model._jacobian\n        old_subjacs = model._subjacs_info.copy()\n"
+             "        old_schemes = model._approx_schemes\n")
+_CT_ANCHOR = "def _fix_check_data(data):\n"
+_CT_HELPERS = ("def _c31_save(model):\n    return (model._owns_approx_jac, model._owns_approx_of, model._owns_approx_wrt,\n"
+               "            model._owns_approx_jac_meta, model._jacobian, model._subjacs_info.copy(),\n"
+               "            model._approx_schemes)\n\n\n"
+               "def _c31_restore(model, saved):\n    a, a_of, a_wrt, a_meta, jac, subjacs, schemes = saved\n"
+               "    model._jacobian = jac\n    model._owns_approx_jac = a\n    model._owns_approx_of = a_of\n"
+               "    model._owns_approx_wrt = a_wrt\n    model._owns_approx_jac_meta = a_meta\n"
+               "    model._subjacs_info = subjacs\n    model._approx_schemes = schemes\n\n\n")
+_SC_PRE = ("        if self._has_output_scaling:\n            for vec in self._vectors['output'].values():\n"
+           "                vec.scale_to_norm()\n        if self._has_resid_scaling:\n"
+           "            for vec in self._vectors['residual'].values():\n                vec.scale_to_norm()\n")
+_SC_POST = ("            if self._has_output_scaling:\n                for vec in self._vectors['output'].values():\n"
+            "                    vec.scale_to_phys()\n            if self._has_resid_scaling:\n"
+            "                for vec in self._vectors['residual'].values():\n                    vec.scale_to_phys()\n")
+_SC_GEN = ("    def _c31_scaled_vecs(self):\n        if self._has_output_scaling:\n"
+           "            yield from self._vectors['output'].values()\n        if self._has_resid_scaling:\n"
+           "            for v in self._vectors['residual'].values():\n                yield v\n\n")
+_SC_FLAGH = ("    def _c31_rescale(self, to_norm):\n        if self._has_output_scaling:\n"
+             "            for ov in self._vectors['output'].values():\n                if to_norm:\n"
+             "                    ov.scale_to_norm()\n                else:\n                    ov.scale_to_phys()\n"
+             "        if self._has_resid_scaling:\n            for rv in self._vectors['residual'].values():\n"
+             "                if not to_norm:\n                    rv.scale_to_phys()\n                else:\n"
+             "                    rv.scale_to_norm()\n\n")
 _PI_RESTORE = ("        for vec, save_array in zip(perturb_vecs, save_perturb_arrays):\n            vec.set_val(save_array)\n"
                "        for vec, save_array in zip(save_vecs, save_arrays):\n            vec.set_val(save_array)\n")
 
@@ -2115,6 +2630,56 @@ selftest(
          "                    vec.scale_to_norm()\n            raise\n"
          "        if self._has_output_scaling:\n            for vec in outputs:\n                vec.scale_to_norm()\n"
          "        if self._has_resid_scaling:\n            for vec in residuals:\n                vec.scale_to_norm()\n"),
+    # ---- shapes accepted in the second robustness round
+    Twin('twin-ct-helpers-tuple-state', PROB, _CT_SAVES, "        saved_state = _c31_save(model)\n",
+         also=[(PROB, _RESTORE_CT, "        _c31_restore(model, saved_state)\n"), (PROB, _CT_ANCHOR, _CT_HELPERS + _CT_ANCHOR)]),
+    Mutant('ct-helpers-unpack-order-swapped', PROB, _CT_SAVES, "        saved_state = _c31_save(model)\n", 'C31.check_totals',
+           also=[(PROB, _RESTORE_CT, "        _c31_restore(model, saved_state)\n"),
+                 (PROB, _CT_ANCHOR, _CT_HELPERS.replace("    a, a_of, a_wrt,", "    a, a_wrt, a_of,") + _CT_ANCHOR)]),
+    Mutant('ct-helpers-subjacs-not-copied', PROB, _CT_SAVES, "        saved_state = _c31_save(model)\n", 'C31.check_totals',
+           also=[(PROB, _RESTORE_CT, "        _c31_restore(model, saved_state)\n"),
+                 (PROB, _CT_ANCHOR, _CT_HELPERS.replace("model._subjacs_info.copy()", "model._subjacs_info") + _CT_ANCHOR)]),
+    Mutant('ct-helpers-save-inside-loop', PROB, _CT_SAVES, "", 'C31.check_totals',
+           also=[(PROB, "        for step in steps:\n            # Approximate FD\n",
+                  "        for step in steps:\n            saved_state = _c31_save(model)\n            # Approximate FD\n"),
+                 (PROB, _RESTORE_CT, "        _c31_restore(model, saved_state)\n"), (PROB, _CT_ANCHOR, _CT_HELPERS + _CT_ANCHOR)]),
+    Mutant('ct-helpers-restore-skipped', PROB, _CT_SAVES, "        saved_state = _c31_save(model)\n", 'C31.check_totals_guard',
+           also=[(PROB, _RESTORE_CT, "        if not saved_state[0]:\n            _c31_restore(model, saved_state)\n"),
+                 (PROB, _CT_ANCHOR, _CT_HELPERS + _CT_ANCHOR)]),
+    Twin('twin-jvp-vectors-alias-loop-result', PROB, "        rvec = self.model._vectors[rkind]['linear']\n        lvec = self.model._vectors[lkind]['linear']\n",
+         "        vecs = self.model._vectors\n        rvec = vecs[rkind]['linear']\n        lvec = vecs[lkind]['linear']\n",
+         also=[(PROB, "        return {n: lvec[resolver.source(n)].copy() for n in lnames}\n",
+                "        result = {}\n        for n in lnames:\n            result[n] = lvec[resolver.source(n)].copy()\n        return result\n")]),
+    Mutant('effect-vectors-alias-nonlinear', PROB, "        rvec = self.model._vectors[rkind]['linear']\n",
+           "        vecs = self.model._vectors\n        rvec = vecs[rkind]['nonlinear']\n", 'C31.effect'),
+    Mutant('jvp-loop-result-view', PROB, "        return {n: lvec[resolver.source(n)].copy() for n in lnames}\n",
+           "        result = {}\n        for n in lnames:\n            result[n] = lvec[resolver.source(n)]\n        return result\n",
+           'C31.jvp_return'),
+    Twin('twin-sc-chaining-generator', SYS, _SC_PRE, "        for vec in self._c31_scaled_vecs():\n            vec.scale_to_norm()\n",
+         also=[(SYS, _SC_POST, "            for vec in self._c31_scaled_vecs():\n                vec.scale_to_phys()\n"),
+               (SYS, "    @contextmanager\n    def _matvec_context(", _SC_GEN + "    @contextmanager\n    def _matvec_context(")]),
+    Mutant('sc-generator-no-finally', SYS, _SC_PRE, "        for vec in self._c31_scaled_vecs():\n            vec.scale_to_norm()\n", 'C31.scale_ctx',
+           also=[(SYS, "        try:\n\n            yield\n\n        finally:\n\n" + _SC_POST,
+                  "        yield\n        for vec in self._c31_scaled_vecs():\n            vec.scale_to_phys()\n"),
+                 (SYS, "    @contextmanager\n    def _matvec_context(", _SC_GEN + "    @contextmanager\n    def _matvec_context(")]),
+    Mutant('sc-generator-half-restore', SYS, _SC_PRE, "        for vec in self._c31_scaled_vecs():\n            vec.scale_to_norm()\n", 'C31.scale_ctx',
+           also=[(SYS, _SC_POST, "            if self._has_output_scaling:\n                for vec in self._vectors['output'].values():\n"
+                                 "                    vec.scale_to_phys()\n"),
+                 (SYS, "    @contextmanager\n    def _matvec_context(", _SC_GEN + "    @contextmanager\n    def _matvec_context(")]),
+    # ---- helper called with constant arguments (flag selects the direction)
+    Twin('twin-sc-const-flag-helper', SYS, _SC_PRE, "        self._c31_rescale(to_norm=True)\n",
+         also=[(SYS, _SC_POST, "            self._c31_rescale(False)\n"),
+               (SYS, "    @contextmanager\n    def _matvec_context(", _SC_FLAGH + "    @contextmanager\n    def _matvec_context(")]),
+    Mutant('sc-const-flag-helper-asymmetric', SYS, _SC_PRE, "        self._c31_rescale(to_norm=True)\n", 'C31.scale_ctx',
+           also=[(SYS, _SC_POST, "            self._c31_rescale(False)\n"),
+                 (SYS, "    @contextmanager\n    def _matvec_context(",
+                  _SC_FLAGH.replace("                if not to_norm:\n                    rv.scale_to_phys()\n                else:\n"
+                                    "                    rv.scale_to_norm()\n",
+                                    "                if to_norm:\n                    rv.scale_to_norm()\n")
+                  + "    @contextmanager\n    def _matvec_context(")]),
+    Mutant('sc-const-flag-helper-same-flag', SYS, _SC_PRE, "        self._c31_rescale(to_norm=True)\n", 'C31.scale_ctx',
+           also=[(SYS, _SC_POST, "            self._c31_rescale(True)\n"),
+                 (SYS, "    @contextmanager\n    def _matvec_context(", _SC_FLAGH + "    @contextmanager\n    def _matvec_context(")]),
     # ---- twins
     Twin('twin-zero-vecs-alias', TJ, "        self.model._doutputs.set_val(0.0)\n        self.model._dresiduals.set_val(0.0)\n",
          "        mdl = self.model\n        mdl._doutputs.set_val(0.0)\n        dres = mdl._dresiduals\n        dres.set_val(0.0)\n"),
